@@ -47,14 +47,14 @@ Ltac peel H x okl :=
 Definition forall_ck (P : ck -> bool) : bool :=
   forallb (fun a => forallb (fun b => forallb (fun c => forallb (fun d => forallb (fun e =>
   forallb (fun f => forallb (fun g => forallb (fun h => forallb (fun i => forallb (fun j =>
-  forallb (fun k => forallb (fun k2 => forallb (fun l => P (mkCk a b c d e f g h i j k k2 l))
-  all_gc) all_bool) all_bool) all_bool) all_bool) all_bool) all_bool) all_bool) all_bool) all_cstage) all_ccause_o) all_bool) all_bool.
+  forallb (fun k => forallb (fun k2 => forallb (fun k3 => forallb (fun k4 => forallb (fun k5 => forallb (fun l => P (mkCk a b c d e f g h i j k k2 k3 k4 k5 l))
+  all_gc) all_gs) all_bool) all_bool) all_bool) all_bool) all_bool) all_bool) all_bool) all_bool) all_bool) all_bool) all_cstage) all_ccause_o) all_bool) all_bool.
 Lemma forall_ck_ok P : forall_ck P = true -> forall k, P k = true.
 Proof.
-  intros H [a b c d e f g h i j k k2 l]. unfold forall_ck in H.
+  intros H [a b c d e f g h i j k k2 k3 k4 k5 l]. unfold forall_ck in H.
   peel H a all_bool_ok. peel H b all_bool_ok. peel H c all_ccause_o_ok. peel H d all_cstage_ok.
   peel H e all_bool_ok. peel H f all_bool_ok. peel H g all_bool_ok. peel H h all_bool_ok.
-  peel H i all_bool_ok. peel H j all_bool_ok. peel H k all_bool_ok. peel H k2 all_bool_ok. peel H l all_gc_ok. exact H.
+  peel H i all_bool_ok. peel H j all_bool_ok. peel H k all_bool_ok. peel H k2 all_bool_ok. peel H k3 all_bool_ok. peel H k4 all_bool_ok. peel H k5 all_gs_ok. peel H l all_gc_ok. exact H.
 Qed.
 
 Definition forall_sv (P : sv -> bool) : bool :=
@@ -136,12 +136,22 @@ Definition kinv (k : ck) : bool :=
   implb (k_cancel_go k)
         (cstage_eqb (k_stage k) FPub && match k_done k with Some c => negb (by_loop c) | None => false end) &&
   (* the watcher's compare-and-swap leaves done set, whoever won *)
-  implb (k_watched k) (negb (is_none (k_done k))).
+  implb (k_watched k) (negb (is_none (k_done k))) &&
+  (* headers: recorded when the headers frame is taken while the stream is in the table; a message is only
+     accepted after that (the frames taken conform to the server grammar: headers precede messages) *)
+  negb (gs_eqb (k_gin k) GsBad) &&
+  implb (k_tab k && gs_eqb (k_gin k) GsHdr) (k_hdrs k) &&
+  implb (k_gotmsg k) (k_hdrs k) &&
+  implb (k_sig k) (k_hdrs k) &&                      (* at the latest they are published together with the result *)
+  (k_new k || (gs_eqb (k_gin k) GsStart && negb (k_hdrs k) && negb (k_gotmsg k))).
 
 (* what the component assumes about its environment: a frame can only arrive once the stream
    exists (the server emits nothing for an id before it has seen new_stream) *)
 Definition kenv (k : ck) (l : klbl) : bool :=
-  match l with CLoop _ _ => k_new k | _ => true end.
+  match l with
+  | CLoop f _ => k_new k && negb (gs_eqb (gs_step (k_gin k) f) GsBad)   (* ... and what it emits for the id conforms *)
+  | _ => true
+  end.
 
 (* what a step may emit: new_stream exactly when the stream comes into being, never again *)
 Definition kem_ok (k k' : ck) (em : list cframe) : bool :=
@@ -160,7 +170,8 @@ Definition kcheck (k : ck) : bool :=
        implb (kenv k l)
          match kstep k l with
          | None => true
-         | Some (k', em) => kinv k' && kem_ok k k' em && gc_eqb (k_g k') (fold_left gc_step em (k_g k))
+         | Some (k', em) => kinv k' && kem_ok k k' em && gc_eqb (k_g k') (fold_left gc_step em (k_g k)) &&
+                            gs_eqb (k_gin k') (match l with CLoop f _ => gs_step (k_gin k) f | _ => k_gin k end)
          end) all_klbl).
 
 
